@@ -336,6 +336,28 @@ def gen_ops(rng, s, tier):
             cls = "unknown-dim"
         cases.append(dict(kind="pad", src=s, pw=pw, axes=sorted(axes), mode=md, cls=cls,
                           wt=rng.choice(["tuple", "list", "npint", "nparray"])))
+    # numpy.pad modes together with the arguments that complete them (Field.pad "accepts any other
+    # arguments allowed by numpy.pad"): checked against numpy.pad of the source arrays with the same arguments
+    for _ in range(2 if tier == "quick" else 4):
+        axes = rng.sample(range(nd), rng.randint(1, nd))
+        pw = [[0, 0] for _ in range(nd)]
+        for a in axes:
+            pw[a] = [rng.randint(0, 3), rng.randint(0, 3)]
+        if math.prod(k + w[0] + w[1] for k, w in zip(n, pw)) > 4 * MAXCELLS:
+            continue
+        md, kw = rng.choice([
+            ("constant", dict(constant_values=rng.randint(-9, 9))),
+            ("constant", dict(constant_values=[rng.randint(1, 9), -rng.randint(1, 9)])),
+            ("constant", dict(constant_values=S(F(rng.randint(1, 15), 4)))),
+            ("reflect", dict(reflect_type="odd")), ("symmetric", dict(reflect_type="odd")),
+            ("reflect", dict(reflect_type="even")),
+            ("mean", dict(stat_length=rng.randint(1, 3))), ("maximum", dict(stat_length=[1, 2])),
+            ("minimum", dict(stat_length=rng.randint(1, 2))), ("median", dict(stat_length=rng.randint(1, 3))),
+            ("mean", {}), ("maximum", {}), ("minimum", {}), ("median", {}),
+            ("linear_ramp", dict(end_values=rng.randint(-9, 9))), ("linear_ramp", dict(end_values=[3, -2])),
+            ("linear_ramp", {}),
+        ])
+        cases.append(dict(kind="padkw", src=s, pw=pw, axes=sorted(axes), mode=md, kw=kw, cls="kw"))
     for _ in range(3 if tier == "quick" else 6):
         nn = [rng.randint(1, 9) for _ in range(nd)]
         if math.prod(nn) > 2 * MAXCELLS:
@@ -414,11 +436,15 @@ def gen_stateful(rng, tier):
     """'used, then changed in place' sources: the request is generated against the state the object reports
     after public in-place calls (mesh / region translate and scale incl. negative factors, field.rotate90,
     writes into array / valid)"""
-    want_rot = rng.random() < 0.3
+    flavour = rng.choice(["any", "any", "rot", "region", "region", "shared"])
+    want_rot = flavour == "rot"
     while True:
         s = gen_src(rng, exact=True, nmax=5, plain=True, nd=rng.choice([2, 2, 3]) if want_rot else None)
-        if not want_rot or s["nvdim"] == 1:
-            break
+        if want_rot and s["nvdim"] != 1:
+            continue
+        if flavour == "region" and s["subs"]:      # the Region object is changed behind the mesh's back
+            s["subs"] = []
+        break
     nd = len(s["n"])
     n = s["n"]
     ncell = math.prod(n)
@@ -431,8 +457,21 @@ def gen_stateful(rng, tier):
         kinds = [k for k in kinds if k != "rot"] or ["translate"]
     if "rot" in kinds:                      # the quarter turn last: geometry is inexact afterwards
         kinds = [k for k in kinds if k != "rot"] + ["rot"]
+    if flavour == "region":
+        kinds = [k for k in kinds if k not in ("translate", "scale")] + [rng.choice(["translate", "scale"])]
+        rng.shuffle(kinds)
+    if flavour == "shared":
+        # the region is moved through ANOTHER mesh built on the same Region object (the mesh of a resample
+        # result shares it): r = f.resample(n); r.mesh.translate / scale(..., inplace=True)
+        via = rng.choice(["mesh", "mesh", "region"])
+        nn = [rng.randint(1, 6) for _ in range(nd)]
+        if rng.random() < 0.5:
+            steps.append(dict(op="via_resample", n=nn, on=via, move="translate",
+                              v=[S(F(rng.randint(-64, 64), 8)) for _ in range(nd)]))
+        else:
+            steps.append(dict(op="via_resample", n=nn, on=via, move="scale", f=S(rng.choice([2, F(1, 2), 4, -1]))))
     for k in kinds:
-        on = "region" if (not s["subs"] and rng.random() < 0.4) else "mesh"
+        on = "region" if (not s["subs"] and (flavour == "region" or rng.random() < 0.4)) else "mesh"
         if k == "translate":
             steps.append(dict(op=k, on=on, v=[S(F(rng.randint(-64, 64), 8)) for _ in range(nd)]))
         elif k == "scale":
@@ -452,12 +491,19 @@ def gen_stateful(rng, tier):
         else:
             steps.append(dict(op=k, vals=[[S(1000 + c_ * s["nvdim"] + j) for j in range(s["nvdim"])] for c_ in range(ncell)]))
     seed = rng.randrange(10 ** 9)
-    return [dict(kind="stateful", src=s, steps=steps, seed=seed, pick=rng.randrange(10 ** 6))
-            for _ in range(6 if tier == "quick" else 10)]
+    if flavour in ("region", "shared"):
+        want = ["resample", "resample", "sel", "getregion", "resample", "pad", "slices", "sel"]
+    elif want_rot:
+        want = [None] * 8
+    else:
+        want = ["resample", "sel", "getregion", "pad", None, "getname", "sel", "slices"]
+    cnt = 5 if tier == "quick" else 8
+    return [dict(kind="stateful", src=s, steps=steps, seed=seed, pick=rng.randrange(10 ** 6), pick_kind=want[j])
+            for j in range(cnt)]
 
 
 def generate(rng, tier):
-    nf = 26 if tier == "quick" else 220
+    nf = 24 if tier == "quick" else 100
     cases = []
     for k in range(nf):
         s = gen_src(rng, exact=True, nd=(k % 4) + 1 if k < 8 else None, nmax=6 if tier == "quick" else 8)
@@ -699,6 +745,20 @@ def guarded(c, f):
         for name, obj, fr in r_.pop("_args", []):
             if freeze(obj) != fr:
                 rec["oracle"].append("caller-argument-changed")
+    # value and validity arrays of a result field are its own: writing into them leaves the source alone
+    # (the bare array a plane selection of a 1-d field returns is documented to be the values themselves)
+    rec.pop("_results", None)
+    for res in rec2.pop("_results", []):
+        if isinstance(res, df.Field):
+            if np.shares_memory(res.array, f.array) or np.shares_memory(res.valid, f.valid):
+                rec["oracle"].append("result-shares-arrays-with-source")
+            try:
+                res.array[...] = res.array + 1
+                res.valid[...] = ~res.valid
+            except Exception:  # noqa: BLE001
+                pass
+    if snap(f) != after:
+        rec["oracle"].append("result-shares-arrays-with-source")
     rec["oracle"] = sorted(set(rec["oracle"]))
     return rec
 
@@ -746,6 +806,13 @@ def apply_step(f, st):
         f.valid = np.array(st["mask"], dtype=bool).reshape(f.valid.shape)
     elif st["op"] == "validflip":
         f.valid[tuple(st["idx"])] = not f.valid[tuple(st["idx"])]
+    elif st["op"] == "via_resample":
+        r_ = f.resample(tuple(st["n"]))
+        tgt = r_.mesh if st["on"] == "mesh" else r_.mesh.region
+        if st["move"] == "translate":
+            tgt.translate(fls(st["v"]), inplace=True)
+        else:
+            tgt.scale(fl(st["f"]), inplace=True)
     elif st["op"] == "arrayset":
         f.array = np.array([fls(r_) for r_ in st["vals"]]).reshape(f.array.shape)
 
@@ -761,7 +828,9 @@ def run_stateful(c):
     s2 = observe_src(f, exact=not rotated)
     rng = random.Random(c["seed"])
     ops = gen_scale_ops(rng, "quick", s2) if rotated else gen_ops(rng, s2, "quick")
-    i = c["pick"] % len(ops)
+    pk = c.get("pick_kind")
+    cand = [j for j, o in enumerate(ops) if o["kind"] == pk and o.get("cls") not in ("wrong-length", "nonpositive")] if pk else []
+    i = cand[c["pick"] % len(cand)] if cand else c["pick"] % len(ops)
     for j in (i - 2, i - 1):       # other requests of the same shape on the same object first
         if j >= 0:
             attempt(lambda: _run_case(ops[j], f))
@@ -814,6 +883,8 @@ def _run_case(c, f):
             call_f = lambda: f.sel(**{dim: v})      # noqa: E731
         stm, rm = attempt(call_m)
         stf, rf = attempt(call_f)
+        if stf == "ok":
+            rec.setdefault("_results", []).append(rf)
         om = mesh_obs(rm) if stm == "ok" else None
         of = field_obs(rf) if stf == "ok" else None
         obs = dict(mesh=om if om else rm, field=of if of else rf)
@@ -946,6 +1017,8 @@ def _run_case(c, f):
             return rec
         stm, rm = attempt(lambda: mesh[item])
         stf, rf = attempt(lambda: f[item])
+        if stf == "ok":
+            rec.setdefault("_results", []).append(rf)
         om = mesh_obs(rm) if stm == "ok" else None
         of = field_obs(rf) if stf == "ok" else None
         if outside and (stm == "ok" or stf == "ok"):
@@ -972,6 +1045,8 @@ def _run_case(c, f):
         name = c["name"]
         stm, rm = attempt(lambda: mesh[name])
         stf, rf = attempt(lambda: f[name])
+        if stf == "ok":
+            rec.setdefault("_results", []).append(rf)
         om = mesh_obs(rm) if stm == "ok" else None
         of = field_obs(rf) if stf == "ok" else None
         present = [x for x in s["subs"] if x[0] == name]
@@ -1001,6 +1076,8 @@ def _run_case(c, f):
         keep(rec, "pad_width", d)
         stm, rm = attempt(lambda: mesh.pad(d))
         stf, rf = attempt(lambda: f.pad(d, mode=md))
+        if stf == "ok":
+            rec.setdefault("_results", []).append(rf)
         neg = any(w < 0 for pr in pw for w in pr)
         if c["cls"] == "unknown-dim":
             if stm == "ok" or stf == "ok":
@@ -1043,6 +1120,40 @@ def _run_case(c, f):
                    key=f'pad/{nd}/{md}/{c["cls"]}/{stm}{stf}/{max(max(w) for w in pw)}', size=size)
         return rec
 
+    if kind == "padkw":
+        pw, md = c["pw"], c["mode"]
+        kw = {k: (tuple(v) if isinstance(v, list) else (fl(v) if isinstance(v, str) and "/" in v else v))
+              for k, v in c["kw"].items()}
+        d = {s["dims"][a]: tuple(pw[a]) for a in c["axes"]}
+        keep(rec, "pad_width", d)
+        keep(rec, "kwargs", kw)
+        stf, rf = attempt(lambda: f.pad(d, mode=md, **kw))
+        if stf == "ok":
+            rec.setdefault("_results", []).append(rf)
+        seq = [tuple(pw[a]) if a in c["axes"] else (0, 0) for a in range(nd)]
+        ste, want_arr = attempt(lambda: np.pad(f.array, seq + [(0, 0)], mode=md, **kw))
+        stv, want_valid = attempt(lambda: np.pad(f.valid, seq, mode=md, **kw).astype(bool))
+        if ste == "ok" and stv == "ok":
+            if stf != "ok":
+                rec["oracle"].append("inside-request-rejected")
+            else:
+                mm = rf.mesh
+                if ([int(k) for k in mm.n] != [k + w[0] + w[1] for k, w in zip(n, pw)]
+                        or [F(float(x)) for x in mm.region.pmin] != [l - w[0] * cc for l, w, cc in zip(lo, pw, cell)]
+                        or [F(float(x)) for x in mm.region.pmax] != [h + w[1] * cc for h, w, cc in zip(hi, pw, cell)]):
+                    rec["oracle"].append("pad-count-field")
+                else:
+                    inner = tuple(slice(w[0], w[0] + k) for k, w in zip(n, pw))
+                    if not aeq(rf.array[inner], f.array) or not aeq(rf.valid[inner], f.valid):
+                        rec["oracle"].append("value-moved")
+                    if not aeq(rf.array, want_arr.astype(rf.array.dtype)) or not aeq(rf.valid, want_valid):
+                        rec["oracle"].append("padding-cells-do-not-follow-mode-arguments")
+        obs = dict(field=field_obs(rf) if stf == "ok" else rf)
+        rec["oracle"] = sorted(set(rec["oracle"]))
+        rec.update(obs=obs, coq=None,
+                   key=f'padkw/{nd}/{md}/{"+".join(sorted(c["kw"])) or "bare"}/{stf}/{max(max(w) for w in pw)}', size=size)
+        return rec
+
     if kind == "resample":
         nn = c["nn"]
         nt = c.get("nt", "tuple")
@@ -1050,6 +1161,8 @@ def _run_case(c, f):
                   "npscalars": tuple(np.int64(k) for k in nn)}[nt]
         keep(rec, "resolution", nn_arg)
         stf, rf = attempt(lambda: f.resample(nn_arg))
+        if stf == "ok":
+            rec.setdefault("_results", []).append(rf)
         of = field_obs(rf) if stf == "ok" else None
         wellformed = len(nn) == nd and all(k > 0 for k in nn)
         if wellformed and stf != "ok":
@@ -1091,12 +1204,16 @@ def _run_case(c, f):
         if bk == 0:
             x1, x2 = fl(c["q1"][0]), fl(c["q2"][0])
             stf, rf = attempt(lambda: f.sel(**{s["dims"][a]: (x1, x2)}))
+            if stf == "ok":
+                rec.setdefault("_results", []).append(rf)
             xlo = [None] * nd
             xhi = [None] * nd
             xlo[a], xhi[a] = min(x1, x2), max(x1, x2)
         else:
             item = df.Region(p1=fls(c["q1"]), p2=fls(c["q2"]))
             stf, rf = attempt(lambda: f[item])
+            if stf == "ok":
+                rec.setdefault("_results", []).append(rf)
             xlo = [min(fl(x), fl(y)) for x, y in zip(c["q1"], c["q2"])]
             xhi = [max(fl(x), fl(y)) for x, y in zip(c["q1"], c["q2"])]
         of = field_obs(rf) if stf == "ok" else None
